@@ -28,6 +28,22 @@ CHECKS["C07"] = dict(
     note=_XH_NOTE,
     ref="DESIGN.md section 6 C07")
 
+CHECKS["C10"] = dict(
+    technique="bounded symbolic execution of the four public search functions for output formats, input containers with SYMBOLIC index labels, and invalid-argument classes (CrossHair + z3)",
+    text="(a) coo_matrix/ndarray outputs must equal the matrix defined by the distance specification cell by cell (SciPy's duplicate-summing COO semantics modelled, so a doubly added entry is visible); (b) list/tuple/array/Series (index labels symbolic, distinct) must give the specified triplets; (c) every invalid-argument class (symbolic non-positive max_edits/n_cpu/max_returns, symbolic and near-miss output_type, non-string elements, empty input) must raise. Confirmed over all paths per condition or refuted and replayed.",
+    note=_XH_NOTE + " Array containers exclude code point 0 (NumPy's unicode dtype strips trailing NULs).",
+    ref="DESIGN.md section 6 C10")
+CHECKS["C11"] = dict(
+    technique="bounded symbolic execution of kdtree with n_cpu as a symbolic integer 1..16 against a contract model of multiprocessing.Pool (schedule chosen by the solver), concrete compressions 1..25, and max_returns assertions as solver terms",
+    text="The real _to_triplets / _cal_* / _histogram_encode code runs with n_cpu symbolic: chunk-size arithmetic, the n_cpu>len(seqs) case and the chunk execution order are solver variables; results must equal the specification for default, Hamming and arbitrary custom distances; per-query max_returns semantics (count = min(m, #neighbours), all true, none omitted strictly closer) are asserted as z3 terms.",
+    note=_XH_NOTE + " Real process scheduling / pickling are replaced by the Pool.map contract (models/mp_model.py).",
+    ref="DESIGN.md section 6 C11")
+CHECKS["C14"] = dict(
+    technique="bounded symbolic execution of all engines with the custom distance modelled as one fresh symbolic real per unordered pair (every metric at once) and a symbolic max_custom_distance (CrossHair + z3, reals for floats)",
+    text="Reported <=> Levenshtein <= max_edits and custom <= max_custom_distance, reported value = custom value, for every symmetric distance function with d(x,x)=0, positivity and triangle inequality, finite and infinite radius, all engines and symdel's two-collection form; confirmed over all paths or refuted with concrete strings plus a concrete distance table replayed on the real stack.",
+    note=_XH_NOTE + " Floats are reals.",
+    ref="DESIGN.md section 6 C14")
+
 NOT_APPLICABLE = {}
 
 def main():
